@@ -84,6 +84,12 @@ CHECKS = {
         design="3/C15",
         technique="Lean 4 proof (finite-table decide +kernel, ring identities, induction) + exact-arithmetic model/code correspondence",
     ),
+    "C10": dict(
+        text="Lean 4 theorems about an explicit heap model of the public API (QV/Model/Api.lean: objects, the namespace of the module qlasskit.qlassfun, mutable defaults; step : ApiState -> Op -> ApiState x Result for qlassf on strings/callables with defs=, bind, oraclize, Grover/DeutschJozsa/Simon/BernsteinVazirani, secret_oracle, export, decompile, truth_table, repr, QCircuit.copy), for all pools, all compile oracles, all states and all histories: frame / frame_run (no operation changes the fingerprint of an existing object; induction over the operation list), later_calls_ok (module namespace and defaults never written), history_free (status and new object depend on the operation and its argument objects only), C10_full for the repaired model; one decide-witness per open defect for the model of the code as it is and C10_partial away from the triggers. Tie: histories over a pool of 32 programs with colliding names run on the real library, each in a worker interpreter that re-imports qlasskit from scratch; after every operation every live object (name, args/expressions hash, gates, qubit_map, input/output qubits, original_f on every input) and the library state (rebound globals of every qlasskit module, mutable defaults) are compared with the object's dependency closure run alone in a pristine library, with a reference evaluator for original_f, and exactly with the model run with the active quirks.",
+        note="partial: modelled heap only. Compilation itself is an opaque function supplied from fresh runs; interpreter state outside the modelled heap (import caches, sympy's cache) is covered by the fresh-process comparison only, as a test; baselines re-import qlasskit per job but share third-party modules (a slice is re-run in completely fresh interpreters). history_free is stated for equal argument objects, not merely equal fingerprints. The read-sets of module globals per operation are hand-written from the code and validated for the colliding names of the pool (copy, ast, len, flatten, Symbol, Qint), not derived from the source. Trusted: Lean kernel (standard axioms, audited per run), the ast extractor (locals of from_function at the eval call, exec(f, globals()) present), the harness and its reference evaluator.",
+        design="3/C10",
+        technique="Lean 4 proof (state-machine invariants by induction over operation lists) + fresh-interpreter differential testing of API histories + exact model/code correspondence",
+    ),
 }
 
 NOT_YET = {
